@@ -245,10 +245,16 @@ macro_rules! zoo_lookup {
         let n = (2 + $src.below_usize(30)).min($max_fast);
         let tab = valid_float_table($src, n);
         if $src.bool() {
-            match ContiguousLookupDecoderModel::<$Pr, _, _, $P>::from_floating_point_probabilities_fast(&tab, None) {
+            // built by its own constructor or (odd n) by converting a searched model
+            let built = if n % 2 == 0 {
+                ContiguousLookupDecoderModel::<$Pr, _, _, $P>::from_floating_point_probabilities_fast(&tab, None)
+            } else {
+                ContiguousCategoricalEntropyModel::<$Pr, _, $P>::from_floating_point_probabilities_fast(&tab, None).map(|m| m.to_lookup_decoder_model())
+            };
+            match built {
                 Ok(m) => {
                     return Some(Dyn {
-                        name: format!("contiguous lookup _fast {:?}", tab),
+                        name: format!("contiguous lookup {} {:?}", if n % 2 == 0 { "_fast" } else { "via to_lookup_decoder_model" }, tab),
                         dec: Some(Rc::new(move |q| {
                             let (s, l, p) = m.quantile_function(q);
                             (s as i64, l, p)
@@ -264,11 +270,17 @@ macro_rules! zoo_lookup {
             }
         } else {
             let syms: Vec<i64> = (0..n as i64).map(|i| 5000 - 11 * i).collect();
-            match NonContiguousLookupDecoderModel::<i64, $Pr, _, _, $P>::from_symbols_and_floating_point_probabilities_perfect(syms.iter().cloned(), &tab) {
+            let built = if n % 2 == 0 {
+                NonContiguousLookupDecoderModel::<i64, $Pr, _, _, $P>::from_symbols_and_floating_point_probabilities_perfect(syms.iter().cloned(), &tab)
+            } else {
+                NonContiguousCategoricalDecoderModel::<i64, $Pr, _, $P>::from_symbols_and_floating_point_probabilities_perfect(syms.iter().cloned(), &tab)
+                    .map(|m| m.to_lookup_decoder_model())
+            };
+            match built {
                 Ok(m) => {
                     let set: std::collections::BTreeSet<i64> = syms.iter().cloned().collect();
                     return Some(Dyn {
-                        name: format!("non-contiguous lookup _perfect {:?}", tab),
+                        name: format!("non-contiguous lookup {} {:?}", if n % 2 == 0 { "_perfect" } else { "via to_lookup_decoder_model" }, tab),
                         dec: Some(Rc::new(move |q| m.quantile_function(q))),
                         enc: None,
                         support: syms,
